@@ -249,8 +249,8 @@ func (r *LogValueRef) GetValue(log *types.Log) []byte {
 
 // getOffsetDataValue retrieves a "complex" data value from the log based on the LogValueRef.
 //
-// In case a slice of log data is referenced and the slice exceeds the log's data length, the
-// result will be zero-padded on the right to the expected length.
+// In case the offset word, the length word or the referenced slice lies outside the log's data,
+// no value (nil) is returned.
 func (r *LogValueRef) getOffsetDataValue(log *types.Log) []byte {
 	// abi encoded log data:
 	// W1: first argument value (simple) or offset_0 (complex)
@@ -266,26 +266,38 @@ func (r *LogValueRef) getOffsetDataValue(log *types.Log) []byte {
 	//		- reading the `value_length` from `data[internal_offset:internal_offset+WORD]`
 	//		- reading the `value` from `data[internal_offset+WORD:internal_offset+WORD+value_length]`
 	//
+	// The offset and length words are attacker controlled (anyone can emit a log), so every
+	// index is checked against the actual data length. A reference that points outside the log
+	// data yields no value instead of panicking or allocating an attacker-chosen amount of memory.
+	dataLen := uint64(len(log.Data))
 	dataOffset := r.Offset - 4
 
 	offsetStartByte := dataOffset * Word
-
+	if offsetStartByte > dataLen || dataLen-offsetStartByte < Word {
+		return nil
+	}
 	x := log.Data[offsetStartByte : offsetStartByte+Word]
 
-	lengthByteOffset := new(big.Int).SetBytes(x).Uint64()
-	y := log.Data[lengthByteOffset : lengthByteOffset+Word]
-	length := new(big.Int).SetBytes(y).Uint64()
-	value := make([]byte, length)
-	startByte := lengthByteOffset + Word
-	endByte := startByte + length
-
-	if startByte < uint64(len(log.Data)) {
-		availableEnd := uint64(len(log.Data))
-		if endByte < availableEnd {
-			availableEnd = endByte
-		}
-		copy(value, log.Data[startByte:availableEnd])
+	lengthByteOffsetBig := new(big.Int).SetBytes(x)
+	if !lengthByteOffsetBig.IsUint64() {
+		return nil
 	}
+	lengthByteOffset := lengthByteOffsetBig.Uint64()
+	if lengthByteOffset > dataLen || dataLen-lengthByteOffset < Word {
+		return nil
+	}
+	y := log.Data[lengthByteOffset : lengthByteOffset+Word]
+	lengthBig := new(big.Int).SetBytes(y)
+	if !lengthBig.IsUint64() {
+		return nil
+	}
+	length := lengthBig.Uint64()
+	startByte := lengthByteOffset + Word
+	if length > dataLen-startByte {
+		return nil
+	}
+	value := make([]byte, length)
+	copy(value, log.Data[startByte:startByte+length])
 	return value
 }
 
